@@ -121,7 +121,7 @@ SHARDS_RUN = {"cmd": "shards", "mode": "shards", "cases": {"quick": 60, "thoroug
 # the commit / rollback pipelines of lib.rs + store/mod.rs + store/sync.rs: the real calls with every I/O event failing (hook H1) against the
 # Lean step-sequence mirror (Api/Pipeline.lean, driver mode `pipeline`)
 PIPE_RUN = {"cmd": "pipeline", "mode": "pipeline", "cases": {"quick": 20, "thorough": 480}, "shards": {"quick": 4, "thorough": 16}}
-# corpus: the history in which `rollback(1)` on a poisoned handle panics in a merkle worker (finding F21)
+# corpus: the history in which `rollback(1)` on a poisoned handle panicked in a merkle worker (finding F21, repaired by f36444c: must pass)
 PIPE_CORPUS = [{"cmd": "pipeline", "mode": "pipeline", "args": ["--only-case", "5"], "cases": {"quick": 6, "thorough": 6}, "shards": {"quick": 1, "thorough": 1}, "seed": 23, "corpus": True}]
 PIPE_RULE = (" pipeline: per case a generated history (session commits, an overlay commit, a rollback; 8 KiB rollback segments in a third of the cases, fat values in a third, the very first commit of a fresh "
              "store in a fifth), one refusal scenario (stale base through each of the four commit entry points, child overlay before its parent, try_write with a session alive, the rollback log's lock held, "
